@@ -70,6 +70,8 @@ def random_system(rng, g, m, nch, fs, complex_shapes=False, xi_rng=(0.002, 0.08)
 def mac(a, b):
     a = np.asarray(a).ravel()
     b = np.asarray(b).ravel()
+    if a.shape != b.shape:  # a shape with the wrong number of components matches nothing
+        return 0.0
     return abs(np.vdot(a, b)) ** 2 / (np.vdot(a, a).real * np.vdot(b, b).real)
 
 
